@@ -7,20 +7,25 @@ TREE_SPECS = r'''
 spec fn t_par<S: State>(t: Seq<Node<S>>, i: int) -> int { t[i].parent_index->Some_0 as int }
 
 /// parent links are in range and point to strictly older nodes; node 0 is the only root
+#[verifier::opaque]
 spec fn t_shape<S: State>(t: Seq<Node<S>>) -> bool {
     &&& t.len() >= 1
     &&& t[0].parent_index is None
     &&& forall|i: int| 1 <= i < t.len() ==> (#[trigger] t[i]).parent_index is Some && t[i].parent_index->Some_0 < i
 }
+#[verifier::opaque]
 spec fn t_valid<S: State>(t: Seq<Node<S>>, vc: &dyn StateValidityChecker<S>) -> bool {
     forall|i: int| 1 <= i < t.len() ==> vc.valid(&(#[trigger] t[i]).state)
 }
+#[verifier::opaque]
 spec fn t_checked<S: State, SP: StateSpace<StateType = S>>(t: Seq<Node<S>>, sp: &SP, vc: &dyn StateValidityChecker<S>) -> bool {
     forall|i: int| 1 <= i < t.len() ==> motion_checked(sp, vc, &t[t_par(t, i)].state, &(#[trigger] t[i]).state)
 }
+#[verifier::opaque]
 spec fn t_edges_le<S: State, SP: StateSpace<StateType = S>>(t: Seq<Node<S>>, sp: &SP, m: real) -> bool {
     forall|i: int| 1 <= i < t.len() ==> rv(sp.dist_spec(&t[t_par(t, i)].state, &(#[trigger] t[i]).state)) <= m
 }
+#[verifier::opaque]
 spec fn t_in_bounds<S: State, SP: StateSpace<StateType = S>>(t: Seq<Node<S>>, sp: &SP) -> bool {
     forall|i: int| 0 <= i < t.len() ==> sp.in_bounds_spec(&(#[trigger] t[i]).state)
 }
@@ -43,6 +48,7 @@ proof fn lemma_up_ends<S: State>(t: Seq<Node<S>>, i: int)
     ensures t_up(t, i).len() >= 1, t_up(t, i)[0] == t[i].state, t_up(t, i).last() == t[0].state
     decreases i
 {
+    reveal(t_shape);
     if i > 0 { lemma_up_ends(t, t_par(t, i)); }
 }
 
@@ -52,6 +58,7 @@ proof fn lemma_up_nodes<S: State>(t: Seq<Node<S>>, i: int, p: spec_fn(S) -> bool
     ensures forall|k: int| 0 <= k < t_up(t, i).len() ==> p(#[trigger] t_up(t, i)[k])
     decreases i
 {
+    reveal(t_shape);
     if i > 0 {
         let pi = t_par(t, i);
         lemma_up_nodes(t, pi, p);
@@ -72,6 +79,7 @@ proof fn lemma_up_edges<S: State>(t: Seq<Node<S>>, i: int, q: spec_fn(S, S) -> b
     ensures forall|k: int| #![trigger t_up(t, i)[k]] 0 <= k < t_up(t, i).len() - 1 ==> q(t_up(t, i)[k + 1], t_up(t, i)[k])
     decreases i
 {
+    reveal(t_shape);
     if i > 0 {
         let pi = t_par(t, i);
         lemma_up_edges(t, pi, q);
@@ -91,6 +99,7 @@ proof fn lemma_up_push<S: State>(t: Seq<Node<S>>, n: Node<S>, i: int)
     ensures t_up(t.push(n), i) == t_up(t, i)
     decreases i
 {
+    reveal(t_shape);
     if i > 0 { lemma_up_push(t, n, t_par(t, i)); }
 }
 '''
@@ -106,6 +115,7 @@ proof fn lemma_tree_push<S: State, SP: StateSpace<StateType = S>>(g: Seq<Node<S>
         forall|m: real| t_edges_le(g, sp, m) && rv(sp.dist_spec(&g[ku as int].state, &t[g.len() as int].state)) <= m ==> #[trigger] t_edges_le(t, sp, m),
         t_in_bounds(g, sp) && sp.in_bounds_spec(&t[g.len() as int].state) ==> t_in_bounds(t, sp),
 {
+    reveal(t_shape); reveal(t_valid); reveal(t_checked); reveal(t_edges_le); reveal(t_in_bounds);
     let n = g.len() as int;
     let k = ku as int;
     assert(forall|i: int| 0 <= i < n ==> t[i] == g[i]);
@@ -123,9 +133,81 @@ proof fn lemma_tree_push<S: State, SP: StateSpace<StateType = S>>(g: Seq<Node<S>
 }
 '''
 
+TREE_SPECS += r'''
+/// everything a returned tree path inherits from the tree invariants (C01, C02, C03, C04, C05)
+spec fn path_props<S: State, SP: StateSpace<StateType = S>>(p: Seq<S>, sp: &SP, vc: &dyn StateValidityChecker<S>, first: S, last: S) -> bool {
+    &&& p.len() >= 1
+    &&& p[0] == first
+    &&& p[p.len() - 1] == last
+    &&& forall|k: int| 0 <= k < p.len() ==> vc.valid(&#[trigger] p[k])
+    &&& forall|k: int| #![trigger p[k]] 0 <= k < p.len() - 1 ==> seg_checked(sp, vc, &p[k], &p[k + 1])
+}
+spec fn path_step_le<S: State, SP: StateSpace<StateType = S>>(p: Seq<S>, sp: &SP, m: real) -> bool {
+    forall|k: int| #![trigger p[k]] 0 <= k < p.len() - 1 ==> rv(sp.dist_spec(&p[k], &p[k + 1])) <= m
+}
+spec fn path_in_bounds<S: State, SP: StateSpace<StateType = S>>(p: Seq<S>, sp: &SP) -> bool {
+    forall|k: int| 0 <= k < p.len() ==> sp.in_bounds_spec(&#[trigger] p[k])
+}
+proof fn lemma_chain_path<S: State, SP: StateSpace<StateType = S>>(t: Seq<Node<S>>, n: int, sp: &SP, vc: &dyn StateValidityChecker<S>, m: real)
+    requires t_shape(t), 0 <= n < t.len(), t_valid(t, vc), vc.valid(&t[0].state), t_checked(t, sp, vc)
+    ensures
+        path_props(t_up(t, n).reverse(), sp, vc, t[0].state, t[n].state),
+        t_edges_le(t, sp, m) ==> path_step_le(t_up(t, n).reverse(), sp, m),
+        t_in_bounds(t, sp) ==> path_in_bounds(t_up(t, n).reverse(), sp),
+{
+    reveal(t_shape); reveal(t_valid); reveal(t_checked); reveal(t_edges_le); reveal(t_in_bounds);
+    lemma_up_ends(t, n);
+    lemma_up_nodes(t, n, |s: S| vc.valid(&s));
+    lemma_up_edges(t, n, |a: S, b: S| motion_checked(sp, vc, &a, &b));
+    let u = t_up(t, n);
+    let p = u.reverse();
+    assert forall|k: int| 0 <= k < p.len() implies vc.valid(&#[trigger] p[k]) by { assert(p[k] == u[u.len() - 1 - k]); }
+    assert forall|k: int| #![trigger p[k]] 0 <= k < p.len() - 1 implies seg_checked(sp, vc, &p[k], &p[k + 1]) by {
+        assert(p[k] == u[u.len() - 1 - k]);
+        assert(p[k + 1] == u[u.len() - 2 - k]);
+        assert(motion_checked(sp, vc, &u[(u.len() - 2 - k) + 1], &u[u.len() - 2 - k]));
+    }
+    assert(p[0] == t[0].state);
+    assert(p[p.len() - 1] == t[n].state);
+    if t_edges_le(t, sp, m) {
+        lemma_up_edges(t, n, |a: S, b: S| rv(sp.dist_spec(&a, &b)) <= m);
+        assert forall|k: int| #![trigger p[k]] 0 <= k < p.len() - 1 implies rv(sp.dist_spec(&p[k], &p[k + 1])) <= m by {
+            assert(p[k] == u[u.len() - 1 - k]);
+            assert(p[k + 1] == u[u.len() - 2 - k]);
+            assert(rv(sp.dist_spec(&u[(u.len() - 2 - k) + 1], &u[u.len() - 2 - k])) <= m);
+        }
+    }
+    if t_in_bounds(t, sp) {
+        lemma_up_nodes(t, n, |s: S| sp.in_bounds_spec(&s));
+        assert forall|k: int| 0 <= k < p.len() implies sp.in_bounds_spec(&#[trigger] p[k]) by { assert(p[k] == u[u.len() - 1 - k]); }
+    }
+}
+'''
+
+TREE_SPECS += r'''
+proof fn lemma_shape_facts<S: State>(t: Seq<Node<S>>)
+    requires t_shape(t)
+    ensures t.len() >= 1, t[0].parent_index is None
+{ reveal(t_shape); }
+/// a one-node tree satisfies every invariant
+proof fn lemma_tree_single<S: State, SP: StateSpace<StateType = S>>(t: Seq<Node<S>>, sp: &SP, vc: &dyn StateValidityChecker<S>)
+    requires t.len() == 1, t[0].parent_index is None
+    ensures t_shape(t), t_valid(t, vc), t_checked(t, sp, vc), forall|m: real| #[trigger] t_edges_le(t, sp, m), sp.in_bounds_spec(&t[0].state) ==> t_in_bounds(t, sp)
+{ reveal(t_shape); reveal(t_valid); reveal(t_checked); reveal(t_edges_le); reveal(t_in_bounds); }
+proof fn lemma_in_bounds_at<S: State, SP: StateSpace<StateType = S>>(t: Seq<Node<S>>, sp: &SP, i: int)
+    requires t_in_bounds(t, sp), 0 <= i < t.len()
+    ensures sp.in_bounds_spec(&t[i].state)
+{ reveal(t_in_bounds); }
+proof fn lemma_empty_tree_invs<S: State, SP: StateSpace<StateType = S>>(t: Seq<Node<S>>, sp: &SP, vc: &dyn StateValidityChecker<S>)
+    requires t.len() == 0
+    ensures t_valid(t, vc), t_checked(t, sp, vc)
+{ reveal(t_valid); reveal(t_checked); }
+'''
+
 # Nearest-neighbour vocabulary (C16)
 NEAREST_SPECS = r'''
 /// `k` is a first nearest node of `t` to `q`: nothing is strictly nearer, nothing earlier is as near
+#[verifier::opaque]
 spec fn t_nearest<S: State, SP: StateSpace<StateType = S>>(t: Seq<Node<S>>, sp: &SP, q: &S, k: int, upto: int) -> bool {
     &&& 0 <= k < upto <= t.len()
     &&& forall|j: int| 0 <= j < upto ==> !flt(sp.dist_spec(&(#[trigger] t[j]).state, q), sp.dist_spec(&t[k].state, q))
@@ -137,6 +219,7 @@ proof fn lemma_nearest_step<S: State, SP: StateSpace<StateType = S>>(t: Seq<Node
         flt(sp.dist_spec(&t[i].state, q), sp.dist_spec(&t[k].state, q)) ==> t_nearest(t, sp, q, i, i + 1),
         !flt(sp.dist_spec(&t[i].state, q), sp.dist_spec(&t[k].state, q)) ==> t_nearest(t, sp, q, k, i + 1),
 {
+    reveal(t_nearest);
     let di = sp.dist_spec(&t[i].state, q);
     let dk = sp.dist_spec(&t[k].state, q);
     ax_lt_irrefl(di);
@@ -149,7 +232,116 @@ proof fn lemma_nearest_step<S: State, SP: StateSpace<StateType = S>>(t: Seq<Node
 proof fn lemma_nearest_init<S: State, SP: StateSpace<StateType = S>>(t: Seq<Node<S>>, sp: &SP, q: &S)
     requires t.len() >= 1
     ensures t_nearest(t, sp, q, 0, 1)
-{ ax_lt_irrefl(sp.dist_spec(&t[0].state, q)); }
+{ reveal(t_nearest); ax_lt_irrefl(sp.dist_spec(&t[0].state, q)); }
 '''
 
 STEER_LEMMAS = ''
+
+# Joining a start-tree chain and a goal-tree chain (RRT-Connect)
+JOIN_SPECS = r'''
+spec fn t_join<S: State>(ts: Seq<Node<S>>, tg: Seq<Node<S>>, si: int, gi: int) -> Seq<S> {
+    t_up(ts, si).reverse() + t_up(tg, gi).skip(1)
+}
+proof fn lemma_join_ends<S: State>(ts: Seq<Node<S>>, tg: Seq<Node<S>>, si: int, gi: int)
+    requires t_shape(ts), t_shape(tg), 0 <= si < ts.len(), 1 <= gi < tg.len()
+    ensures t_join(ts, tg, si, gi).len() >= 2, t_join(ts, tg, si, gi)[0] == ts[0].state, t_join(ts, tg, si, gi).last() == tg[0].state
+{
+    reveal(t_shape);
+    lemma_up_ends(ts, si);
+    lemma_up_ends(tg, gi);
+    lemma_up_ends(tg, t_par(tg, gi));
+    let a = t_up(ts, si).reverse();
+    let b = t_up(tg, gi);
+    assert(b =~= seq![tg[gi].state] + t_up(tg, t_par(tg, gi)));
+    assert(b.len() >= 2);
+    let p = a + b.skip(1);
+    assert(p[0] == a[0]);
+    assert(p.last() == b.skip(1).last());
+    assert(b.skip(1).last() == b.last());
+}
+proof fn lemma_join_nodes<S: State>(ts: Seq<Node<S>>, tg: Seq<Node<S>>, si: int, gi: int, p: spec_fn(S) -> bool)
+    requires t_shape(ts), t_shape(tg), 0 <= si < ts.len(), 1 <= gi < tg.len(),
+        forall|j: int| 0 <= j < ts.len() ==> p((#[trigger] ts[j]).state), forall|j: int| 0 <= j < tg.len() ==> p((#[trigger] tg[j]).state)
+    ensures forall|k: int| 0 <= k < t_join(ts, tg, si, gi).len() ==> p(#[trigger] t_join(ts, tg, si, gi)[k])
+{
+    reveal(t_shape);
+    lemma_up_nodes(ts, si, p);
+    lemma_up_nodes(tg, gi, p);
+    let u = t_up(ts, si);
+    let a = u.reverse();
+    let b = t_up(tg, gi);
+    let j = t_join(ts, tg, si, gi);
+    assert forall|k: int| 0 <= k < j.len() implies p(#[trigger] j[k]) by {
+        if k < a.len() { assert(j[k] == a[k]); assert(a[k] == u[u.len() - 1 - k]); } else { assert(j[k] == b.skip(1)[k - a.len()]); assert(b.skip(1)[k - a.len()] == b[k - a.len() + 1]); }
+    }
+}
+/// q holds for every (parent, child) edge of both trees  ==>  every consecutive pair of the joined path is an
+/// edge of one of the trees in one of the two directions (the junction states are equal)
+proof fn lemma_join_edges<S: State>(ts: Seq<Node<S>>, tg: Seq<Node<S>>, si: int, gi: int, q: spec_fn(S, S) -> bool)
+    requires t_shape(ts), t_shape(tg), 0 <= si < ts.len(), 1 <= gi < tg.len(), ts[si].state == tg[gi].state,
+        forall|j: int| 1 <= j < ts.len() ==> q(ts[t_par(ts, j)].state, (#[trigger] ts[j]).state),
+        forall|j: int| 1 <= j < tg.len() ==> q(tg[t_par(tg, j)].state, (#[trigger] tg[j]).state),
+    ensures forall|k: int| #![trigger t_join(ts, tg, si, gi)[k]] 0 <= k < t_join(ts, tg, si, gi).len() - 1 ==>
+        q(t_join(ts, tg, si, gi)[k], t_join(ts, tg, si, gi)[k + 1]) || q(t_join(ts, tg, si, gi)[k + 1], t_join(ts, tg, si, gi)[k])
+{
+    reveal(t_shape);
+    lemma_up_edges(ts, si, q);
+    lemma_up_edges(tg, gi, q);
+    lemma_up_ends(ts, si);
+    lemma_up_ends(tg, gi);
+    let u = t_up(ts, si);
+    let a = u.reverse();
+    let b = t_up(tg, gi);
+    let j = t_join(ts, tg, si, gi);
+    assert forall|k: int| #![trigger j[k]] 0 <= k < j.len() - 1 implies q(j[k], j[k + 1]) || q(j[k + 1], j[k]) by {
+        if k + 1 < a.len() {
+            assert(j[k] == u[u.len() - 1 - k]);
+            assert(j[k + 1] == u[u.len() - 2 - k]);
+            assert(q(u[(u.len() - 2 - k) + 1], u[u.len() - 2 - k]));
+        } else if k + 1 == a.len() {
+            // junction: a.last() == ts[si].state == tg[gi].state == b[0]; next is b[1], the parent of gi
+            assert(j[k] == a[a.len() - 1]);
+            assert(a[a.len() - 1] == u[0]);
+            assert(j[k + 1] == b.skip(1)[0]);
+            assert(b.skip(1)[0] == b[1]);
+            assert(q(b[0int + 1], b[0int]));
+        } else {
+            let m = k - a.len();
+            assert(j[k] == b.skip(1)[m]);
+            assert(j[k + 1] == b.skip(1)[m + 1]);
+            assert(b.skip(1)[m] == b[m + 1]);
+            assert(b.skip(1)[m + 1] == b[m + 2]);
+            assert(q(b[(m + 1) + 1], b[m + 1]));
+        }
+    }
+}
+
+proof fn lemma_join_path<S: State, SP: StateSpace<StateType = S>>(ts: Seq<Node<S>>, tg: Seq<Node<S>>, si: int, gi: int, sp: &SP, vc: &dyn StateValidityChecker<S>, m: real)
+    requires t_shape(ts), t_shape(tg), 0 <= si < ts.len(), 1 <= gi < tg.len(), ts[si].state == tg[gi].state,
+        t_valid(ts, vc), vc.valid(&ts[0].state), t_valid(tg, vc), vc.valid(&tg[0].state), t_checked(ts, sp, vc), t_checked(tg, sp, vc)
+    ensures
+        path_props(t_join(ts, tg, si, gi), sp, vc, ts[0].state, tg[0].state),
+        t_join(ts, tg, si, gi).len() >= 2,
+        (t_edges_le(ts, sp, m) && t_edges_le(tg, sp, m) && metric_ok(sp)) ==> path_step_le(t_join(ts, tg, si, gi), sp, m),
+        (t_in_bounds(ts, sp) && t_in_bounds(tg, sp)) ==> path_in_bounds(t_join(ts, tg, si, gi), sp),
+{
+    reveal(t_shape); reveal(t_valid); reveal(t_checked); reveal(t_edges_le); reveal(t_in_bounds);
+    let p = t_join(ts, tg, si, gi);
+    lemma_join_ends(ts, tg, si, gi);
+    lemma_join_nodes(ts, tg, si, gi, |s: S| vc.valid(&s));
+    lemma_join_edges(ts, tg, si, gi, |a: S, b: S| motion_checked(sp, vc, &a, &b));
+    assert forall|k: int| #![trigger p[k]] 0 <= k < p.len() - 1 implies seg_checked(sp, vc, &p[k], &p[k + 1]) by {
+        assert(motion_checked(sp, vc, &p[k], &p[k + 1]) || motion_checked(sp, vc, &p[k + 1], &p[k]));
+    }
+    if t_edges_le(ts, sp, m) && t_edges_le(tg, sp, m) && metric_ok(sp) {
+        lemma_join_edges(ts, tg, si, gi, |a: S, b: S| rv(sp.dist_spec(&a, &b)) <= m);
+        assert forall|k: int| #![trigger p[k]] 0 <= k < p.len() - 1 implies rv(sp.dist_spec(&p[k], &p[k + 1])) <= m by {
+            reveal(metric_ok);
+            assert(sp.dist_spec(&p[k], &p[k + 1]) == sp.dist_spec(&p[k + 1], &p[k]));
+        }
+    }
+    if t_in_bounds(ts, sp) && t_in_bounds(tg, sp) {
+        lemma_join_nodes(ts, tg, si, gi, |s: S| sp.in_bounds_spec(&s));
+    }
+}
+'''
